@@ -21,6 +21,9 @@ UNITS = {
         p: ["CxVerif.Props.C05.GlueTieMac"] for p in ("C05", "C06", "C07", "C08", "C09", "C10")}},
     "gluestream": {"driver": None, "harness": None, "gens": None, "props": {
         p: ["CxVerif.Props.C04.GlueTieStream"] for p in ("C03", "C04", "C06", "C07", "C20")}},
+    "gluemd": {"driver": None, "harness": None, "gens": None, "props": {
+        "C01": ["CxVerif.Props.C01.GlueTieMd", "CxVerif.Props.C01.GlueTieMdSpec"], "C02": ["CxVerif.Props.C01.GlueTieMd"],
+        "C08": ["CxVerif.Props.C01.GlueTieMd"], "C13": ["CxVerif.Props.C01.GlueTieMd"]}},
     "hashlen": {"driver": "HashLen", "harness": "ops_hashlen", "gens": "hashlen",
                 "props": {"C01": ["CxVerif.Props.C20.HashLen"], "C20": ["CxVerif.Props.C20.HashLen"]}},
     "long": {"driver": "Long", "harness": "ops_long", "gens": "long", "props": {}},
